@@ -477,6 +477,61 @@ func factNotPositive(m VPred) EdgePred {
 	}
 }
 
+// factNegative: edge establishes v < 0 (v < 0, !(v >= 0), v <= -1 … in either operand order).
+func factNegative(m VPred) EdgePred {
+	return func(cond ssa.Value, branch bool) bool {
+		c, b := stripNot(cond, branch)
+		bo, ok := c.(*ssa.BinOp)
+		if !ok {
+			return false
+		}
+		op, x, y := bo.Op, bo.X, bo.Y
+		if _, isK := constInt(envValue(x)); isK {
+			// k OP v  ==  v OP' k
+			x, y = y, x
+			switch op {
+			case token.LSS:
+				op = token.GTR
+			case token.GTR:
+				op = token.LSS
+			case token.LEQ:
+				op = token.GEQ
+			case token.GEQ:
+				op = token.LEQ
+			}
+		}
+		k, isK := constInt(envValue(y))
+		if !isK || !m(x) {
+			return false
+		}
+		if !b {
+			switch op {
+			case token.EQL:
+				op = token.NEQ
+			case token.NEQ:
+				op = token.EQL
+			case token.LSS:
+				op = token.GEQ
+			case token.GEQ:
+				op = token.LSS
+			case token.GTR:
+				op = token.LEQ
+			case token.LEQ:
+				op = token.GTR
+			default:
+				return false
+			}
+		}
+		switch op {
+		case token.EQL, token.LEQ:
+			return k < 0
+		case token.LSS:
+			return k <= 0
+		}
+		return false
+	}
+}
+
 // factLenPositive: edge establishes len(x) > 0 (pos) or len(x) == 0 (!pos) where x is recognised by m.
 func factLenPositive(m VPred, pos bool) EdgePred {
 	isLen := func(v ssa.Value) bool {
